@@ -11,5 +11,6 @@ CONSTANTS
   BugB58Prefix = FALSE
   BugCursorChecksum = FALSE
   BugAssocMerge = FALSE
+  BugAssocAbsent = FALSE
 INVARIANTS EvOK PropOK
 CHECK_DEADLOCK FALSE
